@@ -30,7 +30,7 @@ def P(pid, foot, mc, random, foot_acts=None, **kw):
 
 
 P('C01', ['sess.uid', 'sess.totpPend', 'sess.smsPend'], ['login', 'remember', 'recover', 'register'], ['core', 'full'])
-P('C03', ['sess.uid', 'resp.ran'], ['login', 'recover'], ['core', 'full'])
+P('C03', ['sess.uid', 'resp.ran'], ['login', 'recover', 'twofa'], ['core', 'twofa'], fam_consts={'twofa': {'MaxDepth': 5}})
 P('C04', ['db.att', 'db.winLeft', 'db.lockLeft'], ['lock', 'login'], ['core', 'full'])
 P('C05', ['db.conf', 'db.cTok', 'db.rTok', 'db.rLeft', 'db.pw'], ['recover', 'register', 'login'], ['core', 'full'],
   foot_acts=['ConfirmGet', 'RecoverStart', 'RecoverEnd', 'RestartConfirm'])
@@ -54,4 +54,18 @@ P('C13', ['db.totp', 'db.sms', 'db.rcg', 'db.rcLeft', 'sess.tfaTok', 'sess.tfaAu
 P('C14', ['sess.oState', 'sess.oHas', 'sess.oRm', 'sess.uid', 'db.ex', 'db.extra'], ['oauth'], ['oauth', 'full'],
   fam_consts={'oauth': dict(OPIDS, MaxDepth=5)}, tconsts={'MaxDepth': 6}, foot_acts=['OAuthStart', 'OAuthCallback'])
 
-COMPONENT = {}
+PROPS['C08'] = dict(engine='mwtable', level='model_checking', foot=[], quick={}, thorough={},
+                    technique='TLA+ decision table (spec/Middleware.tla) checked exhaustively by TLC; every row executed against the real middleware',
+                    assumptions=['the table enumerates session contents x requirement bits x refusal mode x mount-path x storage outcome '
+                                 'completely (864 rows); paths and query strings are sampled (k per row) from a pool with characters that need escaping',
+                                 'storage outcomes are produced by the harness store (fault injection at the first backend call)',
+                                 'path segments that the Go ServeMux itself would redirect (dot segments) are not generated'])
+
+PROPS['C11'] = dict(engine='clientstate', level='model_checking', foot=[], quick={}, thorough={},
+                    technique='TLA+ reference semantics of the client-state writer (spec/ClientState.tla): TLC enumerates every handler program up to a length bound and checks the clauses; each program is interpreted against the real writer',
+                    assumptions=['programs over 15 operation shapes (put/del on two keys per store, session delete-all, header write, body write, reads) '
+                                 'up to length 4 (quick) / 5 (thorough), each through 5 wrapper stacks; the library exposes no cookie delete-all',
+                                 'the recording stores and the recording underlying writer share one sequence, so relative order is exact'])
+
+import components
+COMPONENT = {'mwtable': components.mwtable, 'clientstate': components.clientstate}
